@@ -1,5 +1,7 @@
 package dyntpl
 
+import "reflect"
+
 // EmptyCheckFn describes empty check helper func signature.
 type EmptyCheckFn func(ctx *Ctx, val any) bool
 
@@ -51,10 +53,29 @@ func EmptyCheck(ctx *Ctx, val any) bool {
 	if val == nil {
 		return true
 	}
+	// A nil pointer, map or slice of whatever type is as empty as the untyped nil.
+	rv := reflect.ValueOf(val)
+	switch rv.Kind() {
+	case reflect.Ptr, reflect.Map, reflect.Slice, reflect.Interface, reflect.Func, reflect.Chan:
+		if rv.IsNil() {
+			return true
+		}
+	}
 	for i := 0; i < len(emptyCheckBuf); i++ {
 		if emptyCheckBuf[i].fn(ctx, val) {
 			return true
 		}
+	}
+	// No helper knows the type: a map, slice, array or string of zero length (also behind pointers) is empty.
+	for rv.Kind() == reflect.Ptr || rv.Kind() == reflect.Interface {
+		if rv.IsNil() {
+			return true
+		}
+		rv = rv.Elem()
+	}
+	switch rv.Kind() {
+	case reflect.Map, reflect.Slice, reflect.Array, reflect.String:
+		return rv.Len() == 0
 	}
 	return false
 }
